@@ -2,7 +2,7 @@
 import json
 from typing import Optional
 
-from cincoconfig import (DictField, IncludeField, IntField, ListField, Schema, StringField, get_all_fields,
+from cincoconfig import (DictField, FeatureFlagField, IncludeField, IntField, ListField, Schema, StringField, get_all_fields,
                          is_value_defined)
 from cincoconfig.core import Config, ValidationError
 
@@ -36,6 +36,11 @@ def _schema(with_ct: bool = True):
     schema.lst = ListField(IntField(min=0), default=lambda: [1])
     schema.d = DictField(StringField(), IntField(min=0), default=lambda: {"k": 1})
     schema.items = ListField(item, default=lambda: [])
+    ti = Schema()
+    ti.w = IntField(default=0)
+    ti.v = IntField(min=0, default=0)
+    schema.titems = ListField(make_type_nt(ti, "TI"), default=lambda: [])   # items that compare by VALUE
+    schema.s.enabled = FeatureFlagField(default=True)
     T = None
     if with_ct:
         t = Schema()
@@ -80,12 +85,14 @@ def _state(cfg: Config, sa: bool, sb: bool, sl: bool, si: bool, x: int):
         cfg.ct.v = x
         cfg.r.must = x
         cfg.v.limit = x + 5
+        cfg.titems = [{"w": 99}, {"w": 1}, {"w": 99}]     # first and last equal; equal to a half-loaded {"w": 99}
 
 
 OPS = ("attr", "dotted", "submap", "submap_partial", "sub_wrongtype", "ct_map", "ct_ctor", "l_append", "l_insert",
        "l_setitem", "d_setitem", "d_setdefault", "items_append", "items_setitem", "ctor_kw",
        "submap_validator", "submap_required", "dotted_submap_validator", "load_tree_nested_validator",
-       "items_setitem_partial", "items_append_partial", "items_insert_partial")
+       "items_setitem_partial", "items_append_partial", "items_insert_partial",
+       "titems_insert_partial", "titems_setitem_partial", "titems_append_partial")
 
 
 def _rejected(op: str, bad_i: int, sa: bool, sb: bool, sl: bool, si: bool, x: int) -> bool:
@@ -134,6 +141,15 @@ def _rejected(op: str, bad_i: int, sa: bool, sb: bool, sl: bool, si: bool, x: in
             if not si:
                 skip("needs an item")
             cfg.items[0] = {"w": 99, "v": bad}   # an acceptable entry first, then the rejected one
+        elif op in ("titems_insert_partial", "titems_setitem_partial", "titems_append_partial"):
+            if not si:
+                skip("needs items")
+            if op == "titems_insert_partial":
+                cfg.titems.insert(2, {"w": 99, "v": bad})
+            elif op == "titems_setitem_partial":
+                cfg.titems[1] = {"w": 99, "v": bad}
+            else:
+                cfg.titems.append({"w": 99, "v": bad})
         elif op == "items_append_partial":
             cfg.items.append({"w": 99, "v": bad})
         elif op == "items_insert_partial":
@@ -196,7 +212,7 @@ def _doc_tree():
                  "parser: raises and leaves the configuration unchanged (include field values included)")
 def failed_include_unchanged(where: int, kind: int, sa: bool, sb: bool, x: int) -> bool:
     """
-    pre: 0 <= where <= 4 and 0 <= kind <= 2 and 0 <= x <= 1000
+    pre: 0 <= where <= 5 and 0 <= kind <= 2 and 0 <= x <= 1000
     post: _
     """
     fs = FakeFS(dirs=["/cfg", "/cfg/dir"], unreadable=["/cfg/secret.mem"])
@@ -212,7 +228,12 @@ def failed_include_unchanged(where: int, kind: int, sa: bool, sb: bool, x: int) 
             if kind == i:
                 path = cand
         tree = _doc_tree()
-        if where == 3:
+        if where == 5:
+            # the document switches a feature flag; an include processed LATER cannot be resolved
+            tree["s"]["enabled"] = False
+            tree["s"]["inc"] = path
+            doc = mem.put(tree)
+        elif where == 3:
             # first include resolves and parses, a LATER one (nested scope) fails
             fs.files["/cfg/good.mem"] = mem.put({"a": 9})
             tree["inc"] = "good.mem"
